@@ -393,9 +393,6 @@ class _Squeeze(Base):
     def line(self, case):
         return dict(cls=self.name, doms=_model_doms(case), aggressive=case["aggressive"])
 
-    def extras(self, case, op):
-        return {"tshapes": [[int(s) for s in d.shape] for d in op.target]}
-
     def ref(self, case, x):
         return x
 
